@@ -30,7 +30,7 @@ type runOpts struct {
 	jobs      int
 	verbose   bool
 	claimed   map[string]bool // obligations in the ledger (nil: treat all as claimed)
-	outDir    string // evidence/ and replays/ are written here (default: verifDir)
+	outDir    string          // evidence/ and replays/ are written here (default: verifDir)
 }
 
 func defaultOpts() runOpts {
@@ -112,6 +112,12 @@ func main() {
 		os.Exit(runVerify(pos, opt))
 	case "list":
 		os.Exit(runList(opt))
+	case "tables":
+		L := mustLoad(opt)
+		for _, t := range L.extractTables() {
+			fmt.Printf("%-70s args=%d fn=%s\n", t.unitName(), t.args, t.fn.Name())
+		}
+		os.Exit(0)
 	case "replay":
 		if len(pos) != 1 {
 			fmt.Fprintln(os.Stderr, "replay needs a file")
@@ -208,6 +214,69 @@ func jobsFor(L *Loaded, id string, opt runOpts) ([]unitJob, []*UnitResult) {
 		for _, fn := range fns {
 			fn, c := fn, c
 			jobs = append(jobs, unitJob{name: shortFuncName(fn), run: func() *UnitResult { return VerifyFunc(L, fn, c, opt) }})
+		}
+	}
+	// function literals under their own contract, found by a source anchor inside the enclosing function
+	for _, c := range L.contracts.order {
+		if c.kind != "closure" || (id != "" && !contractMentions(c, id)) {
+			continue
+		}
+		var hits []*ssa.Function
+		var walk func(f *ssa.Function)
+		walk = func(f *ssa.Function) {
+			for _, a := range f.AnonFuncs {
+				if L.anchorMatches(a, c.anchor) {
+					// prefer the innermost literal containing the anchor
+					inner := false
+					for _, aa := range a.AnonFuncs {
+						if L.anchorMatches(aa, c.anchor) {
+							inner = true
+						}
+					}
+					if !inner {
+						hits = append(hits, a)
+					}
+				}
+				walk(a)
+			}
+		}
+		for _, parent := range L.byKey[c.pkg+"::"+c.key] {
+			walk(parent)
+		}
+		if len(hits) == 0 {
+			missing = append(missing, missingTarget(c))
+			continue
+		}
+		for _, fn := range hits {
+			fn, c := fn, c
+			t := &tableEntry{kind: "closure", table: c.key, name: "@" + c.anchor, fn: fn, site: fn}
+			jobs = append(jobs, unitJob{name: t.unitName(), run: func() *UnitResult { return VerifyEntry(L, t, c, c, opt) }})
+		}
+	}
+	// registered function literals (operator tables, static functions, method tables)
+	for _, c := range L.contracts.order {
+		if c.kind != "table" {
+			continue
+		}
+		tableHasID := id == "" || contractMentions(c, id)
+		found := false
+		for _, t := range L.extractTables() {
+			if t.table != c.key || funcPkgPath(t.site) != c.pkg {
+				continue
+			}
+			if ks, ok := c.opts["kinds"]; ok && !strings.Contains(","+ks+",", ","+t.kind+",") {
+				continue
+			}
+			found = true
+			t, c := t, c
+			own := L.contracts.funcs[c.pkg+"::entry:"+c.key+"$"+entrySuffix(t)]
+			if !tableHasID && (own == nil || !contractMentions(own, id)) {
+				continue
+			}
+			jobs = append(jobs, unitJob{name: t.unitName(), run: func() *UnitResult { return VerifyEntry(L, t, c, own, opt) }})
+		}
+		if !found && tableHasID {
+			missing = append(missing, missingTarget(c))
 		}
 	}
 	// implementations of interface methods under contract (behavioural subtyping)
@@ -499,6 +568,11 @@ func funcOfObl(name string) string {
 }
 
 var _ = ssa.NaiveForm
+
+func entrySuffix(t *tableEntry) string {
+	n := t.unitName()
+	return n[strings.Index(n, "$")+1:]
+}
 
 func hasTypeParam(t types.Type) bool {
 	switch u := t.(type) {
